@@ -177,13 +177,16 @@ PENDING = {}
 
 # theorem families added after the first complete pass (DESIGN.md section 0)
 ADDENDA = {
+    "C16": " Library functions written in the language (C16Src, 157 audited, over the ASTs REGENERATED from src/ckl/modules/*.ckl on every run): the theorems of C19Src / C18Src that carry `Ext` (no frame, heap cell or output that existed before changed: union / intersection / diff / symmetric_diff, reverse_list, reduce, gcd, join, replace, filter, flatten, map_list, chunks, pairs, first_n, last_n, ...), `ExtBut a` (append_all changes exactly its first argument, also on a set cell) or freshness of the result cell (rest, reverse_list, first_n, chunks incl. the copied last chunk, pairs, map_list, filter), restated in C16's words (union_does_not_modify_its_arguments, append_all_changes_exactly_its_first_argument, chunks_returns_fresh_cells, ...).",
+    "C15": " Evaluator level (C15Eval, 78 property theorems / 158 audited): the indexing node `s[i]` (strings and list cells, every int, negative from the end, exactly the runtime error 'ERROR' \"Index out of bounds\" at the node's position otherwise; booleans / decimals / invalid index kinds), the slice node `s[a to b]` / `s[a to *]` (= the clamped contiguous run; a list slice is a fresh cell, the operand unchanged), and substr / sublist / find / find_last / insert_at / delete_at / length / `+` through callPure and through call nodes compute exactly the Seq functions of the textbook theorems; the identities through the evaluator: `s[0 to k] + s[k to *] == s` evaluates to TRUE for every string, every list of self-equal values and every int k (split_join_str, split_join_list), length_slice, find_neg_one_iff_not_infix, delete_insert_restores for every int index.",
     "C18": " Theorems about the string library SOURCE by the translator route (C18Src, 21 audited): reverse_src (= List.reverse, involutive), join_src (= intercalate; join_split_src: join(split(s, sep), sep) = s for the source), q_src, replace_src (the recursive source = left-to-right non-overlapping substitution behind `start`, explicit fuel 30 * (length - start) + 30), replace_src_empty_pattern, esc_src, each with `Ext`; mutants of string.ckl break the proofs at check time, a comment-only change does not.",
     "C07": " Evaluator level (C07EvalAudit, theorems of the C06Eval family): the natives less / less_equals / greater / greater_equals / compare are vlt and its derived relations on reified values (native_less_eq, compare_consistent, less_trichotomy); nativeSorted without cmp / key returns a fresh cell holding the stable sorted permutation (sorted_list_spec, sorted_list_sorted_stable, sorted_set_spec, sorted_list_by_length); for loops, comprehensions and spread over a set or the keys of a map visit the elements in strictly ascending vlt order (for_set_order, for_map_keys_order, compr_set_order, spread_item_set_order).",
     "C06": " Evaluator level (C06Eval, 135 audited): the BRIDGE between the heap values programs run on and the tree values of the theorems - under the heap well-formedness HeapOK, rveq / rvlt / rrender / memR / mapGet / sortedR / setAdd / mapPut / mapDel agree with veq / vlt / render / membership / lookup / mkSet / dedupKeepFirst / assocPut; hence the native `equals` is an equivalence that never relates different kinds (equals_refl/symm/trans, equals_cross_kind, numeric equality iff equal rationals), `in`, `m[k]`, remove, contains respect it (memR_congr, mapGet_congr, in_set_congr, index_congr), set literals / set() / append never hold two equal elements (addSet_spec, set_literal_spec); HeapOK is preserved by allocation of well-formed cells (heapOK_alloc), with witnesses showing each side condition necessary.",
     "C05": " From source text (C05EndToEnd): uncaught_error_reaches_interpret_src; error_literal_reaches_interpret - the text `error <v>` for every data value v ends the call with a runtime error whose value is exactly v; finally_exactly_once_src for every text and every session.",
     "C01": " End to end (C01EndToEnd): parseScript_total / interpret_total - for EVERY source text the front end accepts or rejects with one syntax error that has a non-empty message, a line >= 1 and the given file name, and interpret ends in exactly one of value / runtime error carrying a value / syntax error / the model's own abstentions, never a host failure.",
     "C19": " Theorems about the library SOURCE by the translator route (C19Src): harness/extract/libsrc.py re-parses src/ckl/modules/*.ckl with the real parser on every run and emits the functions as Lean terms (Gen/LibSrc.lean, cross-checked against the driver's decoder by #guards); abs_src_int / sign_src_int (the source of abs / sign computes Int.natAbs / Int.sign for all ints, all states satisfying LibEnv, all fuel above an explicit bound, changing no old frame, cell or output), the NULL and non-numeric branches, is_int_src / is_decimal_src / is_list_src / is_numeric_src, rest_src. An edit of the source (`n < 0` -> `n <= 0`) breaks the proof at check time."
-           " Continuation (51 audited in C19Src): first, last, is_even, is_odd, is_zero, is_negative, is_positive, non_empty, const, reverse_list (= List.reverse in a fresh cell, argument unchanged), reduce / prod (= foldl), append_all (changes exactly its first argument), gcd (= Int.gcd, explicit fuel 30 * (|b| + 1) + 1), load_defs_establishes_libEnv (the state obtained by loading the generated definitions satisfies the hypothesis of all these theorems).",
+           " Continuation (51 audited in C19Src): first, last, is_even, is_odd, is_zero, is_negative, is_positive, non_empty, const, reverse_list (= List.reverse in a fresh cell, argument unchanged), reduce / prod (= foldl), append_all (changes exactly its first argument), gcd (= Int.gcd, explicit fuel 30 * (|b| + 1) + 1), load_defs_establishes_libEnv (the state obtained by loading the generated definitions satisfies the hypothesis of all these theorems)."
+           " Second continuation (131 audited in C19Src): union / intersection / diff / symmetric_diff of set.ckl on list and set cells of scalars (= Lib.unionM ..., argument cells unchanged - the past defect `union` mutating its first argument would break union_src), first_n, last_n, for_each, the generic reverse, lcm, any, all, chunks (all chunk cells fresh and pairwise different), pairs, filter, flatten, unique, map_list (list comprehension rule), sign / abs on decimals, and libState_libEnv (a multi-frame library state built by evaluating the generated definitions satisfies the hypotheses for 48 definitions).",
     "C12": " Whole-program simulation for call-free programs (C12Sim): eval_perm_irrelevant_partial - for states that differ by permutations of set / map cell contents (atomic, same-kind keys) every program without call / method call / require / element assignment outside lambda bodies (31 of 35 node kinds) gives the same outcome, value, error, message, position, trace and printed output, and related final states; session, output and rendering corollaries. The unrestricted statement is false in model and code alike (growth of a cell by an incomparable key - the recorded finding C12:date-number-mix; #guard witnesses).",
     "C02": " The precedence theorem is now proved (C02Parse): for expression trees of any depth over or/and/not, comparison chains, + - * / %, unary minus "
            "and parentheses, EVERY token list spelled by the minimal-parentheses printer parses to the prescribed AST modulo positions "
@@ -222,7 +225,8 @@ ADDENDA = {
            "(C14EndToEnd): interpret_layout_irrelevant - white space, LF/CRLF or a comment inserted at a token boundary of the source text gives the "
            "same value, output, error value and message, or a syntax error with the same message."
            " Redundant parentheses and optional semicolons for ALL token lists (C14Parens): production_extends (all 51 productions: a production that succeeds keeps its result when a stopper token and anything else follows - the stopper set is derived from every look-ahead of the parser), parens_primary, paren_at_levels (operand position of every operator), paren_expr_stop (arguments, elements, right-hand sides, indices), paren_cond_stop, paren_statement_stop, parse_redundant_parens_general, trailing_semi_general (discharges trailing_semi_partial), interpret_parens_irrelevant, interpret_trailing_semi_irrelevant; the exceptions (a block followed by an operator, `-1` vs `-(1)`, `(a)` newline `(b)`, `;;`, dangling else) are stated as theorems or #guards.",
-    "C17": " date - date on exact millisecond stamps: (d + k) - d = k for dates with a time of day (diffDays_addDays), antisymmetry, truncation spec.",
+    "C17": " date - date on exact millisecond stamps: (d + k) - d = k for dates with a time of day (diffDays_addDays), antisymmetry, truncation spec."
+           " Evaluator level (C17Eval, 49 audited): date arithmetic is part of the evaluator model now (date + n, date - n, date - date, int(date), decimal(date), date(int), date('yyyymmdd[hh[mmss]]') in callPure / nativeAdd / nativeSub; validated on 42 500 generated programs, 0 disagreements where the model answers, 2.6 % abstentions); through callPure and through eval of the operator nodes, for every date 1900-01-01..9999-12-31 with a whole-millisecond time of day and every n with the result in the calendar: add_then_sub ((d + n) - n == d), add_then_diff ((d + n) - d == n), int_date_roundtrip, date_int_roundtrip, add_one_next_day, less_iff_int_less, and the exact errors outside the calendar, each derived from the C17 theorems about Model/Date.lean.",
     "C20": " Evaluator level (C20Eval): per construct the error carries the failing node's own position, errors propagate unchanged, a failing call adds "
            "exactly one trace entry with the call node's position, and every position in an outcome comes from an AST (error_pos_from_ast, "
            "value_pos_from_ast). Parser level (C14Parse): positions_from_tokens."
@@ -231,7 +235,7 @@ ADDENDA = {
 
 
 GEN_TABLES = {"C02": "operator tables, expression tower and is-[not]-predicate twins of parser.py", "C03": "getArgNames of every built-in",
-              "C09": "native table with secure flags, OS effects and instantiation guards", "C14": "scanner character classes, keywords and state graph",
+              "C09": "native table with secure flags, OS effects and instantiation guards", "C16": "ASTs of the bundled .ckl library functions", "C14": "scanner character classes, keywords and state graph",
               "C18": "ASTs of the string.ckl library functions", "C19": "ASTs of the bundled .ckl library functions"}
 
 
